@@ -134,6 +134,23 @@ class Exec:
 DEFAULT_MIX = {"create": 3, "mkdir": 2, "write": 2, "delete": 2, "rename": 2, "rmtree": 1, "rmdir": 1, "rename_dir": 2}
 
 
+def _swap_pairs(files):
+    fs = sorted(files)
+    return [(x, y) for i, x in enumerate(fs) for y in fs[i + 1:] if x.rsplit("/", 1)[0] == y.rsplit("/", 1)[0]
+            and not x.endswith("/t") and not y.endswith("/t")]
+
+
+def expand_op(op, tree):
+    """a proposed op as the list of primitive user ops it stands for ('swap' = three renames through a temporary name)"""
+    if op[0] != "swap":
+        return [op]
+    a, b = op[1], op[2]
+    tmp = a.rsplit("/", 1)[0] + "/t"
+    if tmp in tree:
+        return []
+    return [("rename", a, tmp), ("rename", b, a), ("rename", tmp, b)]
+
+
 def propose(rng, tree, mix, payload, names_f=NAMES_F, names_d=NAMES_D, prefix=""):
     """Propose one legal-looking user op on `tree` (relpath -> kind).  prefix restricts to a subtree
     (C04's partitions).  Returns the op tuple (op, *args) or None."""
@@ -151,6 +168,8 @@ def propose(rng, tree, mix, payload, names_f=NAMES_F, names_d=NAMES_D, prefix=""
             continue
         if op == "recase" and not (files or [d for d in dirs if d != prefix]):
             continue
+        if op == "swap" and not _swap_pairs(files):
+            continue
         if op in ("rmtree", "rmdir", "rename_dir") and len([d for d in dirs if d != prefix]) < 1:
             continue
         ops += [op] * wgt
@@ -166,6 +185,10 @@ def propose(rng, tree, mix, payload, names_f=NAMES_F, names_d=NAMES_D, prefix=""
         return ("write", rng.choice(files), payload())
     if op == "delete":
         return ("delete", rng.choice(files))
+    if op == "swap":
+        # two files of one folder exchange their names through a temporary name (expanded into three renames by gen_history)
+        a, b = rng.choice(_swap_pairs(files))
+        return ("swap", a, b)
     if op == "rename":
         return ("rename", rng.choice(files), rng.choice(dirs) + "/" + rng.choice(names_f))
     if op == "rmtree":
@@ -211,9 +234,25 @@ def gen_history(rng, ex, nops, sides=(0, 1), style="batched", mix=None, maxsteps
         op = propose(rng, t, mix, ex.new_payload, prefix=prefix)
         if op is None:
             continue
-        if not ex.apply(["U", side] + list(op)):
+        steps = expand_op(op, t)
+        if not steps:
+            continue
+        ok = True
+        for k, one in enumerate(steps):
+            if not ex.apply(["U", side] + list(one)):
+                ok = False
+                break
+            if k < len(steps) - 1:
+                _after_op(rng, ex, style, maxsteps, midfail)
+        if not ok:
             continue
         done += 1
+        _after_op(rng, ex, style, maxsteps, midfail)
+    return done
+
+
+def _after_op(rng, ex, style, maxsteps, midfail):
+    if True:
         if style == "eager":
             ex.apply(["Q"])
         elif style == "batched":
@@ -232,7 +271,6 @@ def gen_history(rng, ex, nops, sides=(0, 1), style="batched", mix=None, maxsteps
                 ex.apply(["T", rng.choice([0.001, 0.003, 0.02])])
         elif style == "bursty":
             pass
-    return done
 
 
 # ------------------------------------------------------------------ shapes (for distinct counting / findings)
